@@ -7,7 +7,11 @@ maintenance, explicit and reactive attendance and clock advances through a real 
 (LDMServiceReactive; TimeService.time and time.monotonic virtual), line by line against the Lean model;
 (ii) lean/Generated/LdmSubs.lean (harness/gen_ldm_subs.py): the checks of validate_subscribe_data_consumer in source
 order with their result codes and the accepted ranges probed on the real validators - the model's refusal ladder is
-DEFINED from them; (iii) the unsubscribe-vs-attendance race on two real threads under harness/dsched.py (`RaceRun`).
+DEFINED from them; (iii) the unsubscribe-vs-attendance race on two real threads under harness/dsched.py (`RaceRun`):
+notify None / 0 / > 0, unsubscribe / deregistration, with and without an ordering phase, all one-pre-emption schedules
+(every lock acquisition inside the database search of the attendance is a pre-emption point); the regions in which a late
+callback is tolerated are those of Props.C14.race_regions (model FlexModel/Ldm/SubsRace.lean), whose guard positions are
+read from the source (lean/Generated/LdmSections.lean: `attendSteps`, `notifySteps`).
 Oracle: `RefSubs`, a reference subscription model written from the property text; at every attendance it computes,
 from the REAL store content, which callbacks must fire and with which objects (C13's brute-force `spec_query`), in
 snapshot order with the effect of every callback's action; the cadence is judged over the whole history (a notification
@@ -28,7 +32,8 @@ TRUSTED = [
     "callback that adds data or subscribes is out of scope; the store content used by the oracle at an attendance is read "
     "back from the real database after the operation (C12 covers the store itself)",
     "thread schedules: harness/dsched.py (CPython executes one bytecode atomically; Lock/RLock replaced by scheduler-aware "
-    "equivalents); the race scenario has no Lean model, its oracle is the event order",
+    "equivalents); the race scenario is judged on its event order (search end, locked decision, removal returned, "
+    "callback); its Lean model (SubsRace.lean) is tied to the source by the regenerated statement lists only",
 ] + c13.TRUSTED[:1]
 ASSUMPTIONS = [
     "attendance happens when attend_subscriptions is called explicitly and, reactively, inside add_provider_data of a "
@@ -44,7 +49,13 @@ ASSUMPTIONS = [
     "known finding C14-KF1: the subscription id is hash(request), so equal requests share one id and unsubscribing one "
     "removes all of them (pinned by tests/.../test_ldm_service.py::test_delete_subscription)",
     "known finding C14-KF2 (threads only): a removal racing an in-flight attendance can be followed by one more callback "
-    "when the notification had been decided before the removal returned, or when notify_time is None/0",
+    "when the notification had been decided (locked decision section of process_notifications) before the removal returned",
+    "finding C14-KF3 (threads only, code as is; fixes/C14-decision-tests-membership.diff): with notify_time None/0 also "
+    "when the removal returned after the search/ordering phase of the attendance had ended and before the decision section "
+    "(between the membership section of attend_subscription and process_notifications); a removal that returns while the "
+    "attendance is still searching / ordering, or any notify_time > 0 with the decision after the removal, is a violation",
+    "race model (Props.C14 section Race, FlexModel/Ldm/SubsRace.lean): one attendance of one due subscription against one "
+    "removal; unsubscribe's read-only copy section and the other subscriptions of the pass are not modelled",
 ]
 
 CFG = c13.CFG
@@ -575,11 +586,29 @@ def race_env():
     return _RACE
 
 
+class _LogDict(dict):
+    """the last-checked table of the service, logging every store: the LOCKED decision section of process_notifications
+    ends with `last_checked_subscriptions_time[subscription] = now` (event "dec"), right before the lock is released and
+    the callback invoked"""
+
+    def __init__(self, src, log):
+        super().__init__(src)
+        self._log = log
+
+    def __setitem__(self, k, v):
+        self._log(k)
+        super().__setitem__(k, v)
+
+
 class RaceRun:
     """Two REAL threads on a real LDMService (in-memory back-end) under harness/dsched.py: T0 runs one attendance pass,
     T1 unsubscribes subscription A (or deregisters its consumer) and notes when the call has returned.  A and B are due.
-    Events (total order): ("pn", cb) process_notifications entered for cb, ("cb", cb) callback invoked,
-    ("gone", ok) the unsubscribe / deregistration of A has returned."""
+    Scenario: notify (None / 0 / ms), remove ("unsub" / "dereg"), order (bool: the subscriptions order their result, so
+    the attendance has an ordering phase after the search), flt (bool: a filter, so the search evaluates statements).
+    Events (total order): ("srch", cb) the database search of cb's attendance starts, ("found", cb) it has returned,
+    ("ord", cb) the ordering of cb's result has returned, ("pn", cb) process_notifications entered for cb, ("dec", cb)
+    the locked decision section stored cb's notification time, ("cb", cb) callback invoked, ("gone", ok) the
+    unsubscribe / deregistration of A has returned."""
 
     def __init__(self, sc, policy):
         import dsched
@@ -600,26 +629,47 @@ class RaceRun:
                 for app in (2, 16):
                     i4.register_data_consumer(K.RegisterDataConsumerReq(app, (K.AccessPermission(app),), None))
                 now = K.TimestampIts.initialize_with_utc_timestamp_seconds(RACE_T0 // 1000).timestamp_its
-                i3.add_provider_data(K.AddDataProviderReq(2, K.TimestampIts(now), L.real_location(dict(FAR)),
-                                                          {"cam": {"generationDeltaTime": 1}}, K.TimeValidity(10 ** 6)))
+                for g in ((1,) if not sc.get("order") else (3, 1, 2)):
+                    i3.add_provider_data(K.AddDataProviderReq(2, K.TimestampIts(now + g), L.real_location(dict(FAR)),
+                                                              {"cam": {"generationDeltaTime": g}}, K.TimeValidity(10 ** 6)))
                 nt = None if sc["notify"] is None else K.TimestampIts(sc["notify"])
+                order = ((K.OrderTupleValue("cam.generationDeltaTime", K.OrderingDirection.ASCENDING),)
+                         if sc.get("order") else None)
+                flt = (K.Filter(K.FilterStatement("cam.generationDeltaTime", K.ComparisonOperators.GREATER_THAN_OR_EQUAL, 1))
+                       if sc.get("flt") else None)
                 ids = {}
                 for cb, app in (("A", 2), ("B", 16)):
                     r = i4.subscribe_data_consumer(K.SubscribeDataobjectsReq(
-                        application_id=app, data_object_type=(2,), priority=None, filter=None, notify_time=nt,
-                        multiplicity=1, order=None), (lambda resp, cb=cb: sched.log("cb", cb)))
+                        application_id=app, data_object_type=(2,), priority=None, filter=flt, notify_time=nt,
+                        multiplicity=1, order=order), (lambda resp, cb=cb: sched.log("cb", cb)))
                     ids[cb] = r.subscription_id
                 if len(svc.subscriptions) != 2:
                     raise Infra("race scenario: the two subscriptions were not stored")
                 clock.advance((sc["notify"] or 0) + 1000)           # both subscriptions are due
                 names = {hash(si.subscription_request): ("A" if si.subscription_request.application_id == 2 else "B")
                          for si in svc.subscriptions}
-                orig_pn = svc.process_notifications
+                name_of = lambda si: names.get(hash(si.subscription_request), "?")
+                orig_pn, orig_sd, orig_ord = svc.process_notifications, svc.search_data, svc.order_search_results
+                cur = {}
 
                 def pn(subscription, result):
-                    sched.log("pn", names.get(hash(subscription.subscription_request), "?"))
+                    sched.log("pn", name_of(subscription))
                     return orig_pn(subscription, result)
-                svc.process_notifications = pn
+
+                def sd(subscription):
+                    cur["attend"] = name_of(subscription)
+                    sched.log("srch", cur["attend"])
+                    r = orig_sd(subscription)
+                    sched.log("found", cur["attend"])
+                    return r
+
+                def osr(search_result, order_):
+                    r = orig_ord(search_result, order_)
+                    sched.log("ord", cur.get("attend", "?"))
+                    return r
+                svc.process_notifications, svc.search_data, svc.order_search_results = pn, sd, osr
+                svc.last_checked_subscriptions_time = _LogDict(svc.last_checked_subscriptions_time,
+                                                               lambda si: sched.log("dec", name_of(si)))
 
                 def t_attend():
                     svc.attend_subscriptions()
@@ -636,15 +686,20 @@ class RaceRun:
                 with rs.quiet():
                     sched.run(timeout=30.0)
                 self.left = len(svc.subscriptions)
+                self.stale = sum(1 for si in svc.last_checked_subscriptions_time if si not in svc.subscriptions)
         self.steps = sched.steps
         self.choices = [c[0] for c in sched.steps]
         self.events = list(sched.events)
 
     def judge(self):
-        """[(what, finding id)]: callback of A after its removal had returned.  Known finding C14-KF2: the notification
-        was decided before the removal returned (the callback is invoked outside the service lock), or notify_time is
-        None / 0 (no interval test stands between a removed subscription and its callback once the attendance is past its
-        membership check).  Anything else - the decision was taken AFTER the removal had returned - is a violation."""
+        """[(what, finding id)]: callback of A after its removal had returned ACCEPTED.
+        Known finding C14-KF2: the locked decision section for that callback ("dec") had been executed BEFORE the removal
+        returned - the callback is invoked outside the service lock and cannot be stopped any more.
+        Finding C14-KF3 (code as is; repaired by fixes/C14-decision-tests-membership.diff): notify_time None / 0, the
+        search / ordering phase of A's attendance had ENDED before the removal returned, the decision came after it: the
+        removal fell into the gap between the membership test of attend_subscription and the decision section.
+        Anything else is a violation: in particular a removal that returned while the attendance was still searching or
+        ordering (its membership test still ahead), and any notify_time > 0 with the decision after the removal."""
         s = self.s
         if s.abort_reason == "deadlock":
             return [(f"deadlock: {s.deadlock}", None)]
@@ -657,30 +712,94 @@ class RaceRun:
             bad.append(("removal of a live subscription / registered consumer refused", None))
         if [e for e in ev if e == ("cb", "B")] != [("cb", "B")]:
             bad.append((f"subscription B (other consumer, due) was notified {sum(1 for e in ev if e == ('cb', 'B'))} times", None))
+        last = lambda kinds, i: max((j for j, x in enumerate(ev[:i]) if x[0] in kinds and x[1] == "A"), default=-1)
         for i, e in enumerate(ev):
             if e == ("cb", "A") and gone is not None and i > gone:
-                decided = max((j for j, x in enumerate(ev[:i]) if x == ("pn", "A")), default=-1)
-                if decided < gone or not self.sc["notify"]:
-                    bad.append(("callback of A invoked after its removal returned (decided before / no interval test)", "C14-KF2"))
+                dec, ready, srch = last(("dec",), i), last(("found", "ord"), i), last(("srch",), i)
+                nt = self.sc["notify"]
+                if 0 <= dec < gone:
+                    bad.append(("callback of A invoked after its removal returned (its notification had been decided, under "
+                                "the service lock, before the removal returned)", "C14-KF2"))
+                elif not nt and 0 <= ready < gone:
+                    bad.append((f"callback of A invoked after its removal returned: notify_time {nt}, the removal returned "
+                                f"between the end of the search phase and the decision section (membership test passed, "
+                                f"lock released, removal, decision)", "C14-KF3" if gap_variant() else None))
+                elif ready < 0 or ready > gone:
+                    found = last(("found",), i)
+                    phase = ("before its data base search" if srch > gone else
+                             "searching the data base" if (found < 0 or found > gone) else "ordering its result")
+                    bad.append((f"callback of A invoked although {self.sc['remove']} had returned ACCEPTED while the attendance "
+                                f"was {phase} for A (notify_time {nt}): the removed subscription was notified", None))
                 else:
                     bad.append((f"callback of A invoked although the attendance took up its notification AFTER "
-                                f"{self.sc['remove']} had returned ACCEPTED (notify_time {self.sc['notify']} ms)", None))
+                                f"{self.sc['remove']} had returned ACCEPTED (notify_time {nt} ms)", None))
+        if gone is not None and self.stale and not any(e == ("cb", "A") and i > gone for i, e in enumerate(ev)):
+            pass        # a stale last-checked record without a callback is not judged (no clause of the property)
         return bad
 
 
-RACE_SCENARIOS = [{"notify": 2000, "remove": "unsub"}, {"notify": 1000, "remove": "dereg"}, {"notify": 0, "remove": "unsub"}]
+_GAP = {}
+
+
+def gap_variant():
+    """does the code as it is leave the gap of finding C14-KF3?  Sequential probe (no threads): the removal is made to
+    happen exactly between attend_subscription's membership test and process_notifications, by wrapping the latter."""
+    if "open" not in _GAP:
+        import realstack as rs
+        from flexstack.facilities.local_dynamic_map import ldm_classes as K
+        env = race_env()
+        calls = []
+        with rs.VClock(RACE_T0) as clock:
+            area = K.Location.initializer(latitude=415000000, longitude=21000000)
+            svc = env["svc"].LDMService(env["mnt"].LDMMaintenance(area, env["db"].DictionaryDataBase()))
+            i3, i4 = env["if3"].InterfaceLDM3(svc), env["if4"].InterfaceLDM4(svc)
+            i3.register_data_provider(K.RegisterDataProviderReq(2, (K.AccessPermission(2),), K.TimeValidity(1000)))
+            i4.register_data_consumer(K.RegisterDataConsumerReq(2, (K.AccessPermission(2),), None))
+            now = K.TimestampIts.initialize_with_utc_timestamp_seconds(RACE_T0 // 1000).timestamp_its
+            i3.add_provider_data(K.AddDataProviderReq(2, K.TimestampIts(now), L.real_location(dict(FAR)),
+                                                      {"cam": {"generationDeltaTime": 1}}, K.TimeValidity(10 ** 6)))
+            r = i4.subscribe_data_consumer(K.SubscribeDataobjectsReq(
+                application_id=2, data_object_type=(2,), priority=None, filter=None, notify_time=K.TimestampIts(0),
+                multiplicity=1, order=None), lambda resp: calls.append(1))
+            clock.advance(1000)
+            orig = svc.process_notifications
+
+            def pn(subscription, result):
+                i4.unsubscribe_data_consumer(K.UnsubscribeDataConsumerReq(2, r.subscription_id))
+                return orig(subscription, result)
+            svc.process_notifications = pn
+            with rs.quiet():
+                svc.attend_subscriptions()
+        _GAP["open"] = bool(calls)
+    return _GAP["open"]
+
+
+RACE_SCENARIOS = [{"notify": 2000, "remove": "unsub"}, {"notify": 1000, "remove": "dereg"}, {"notify": 0, "remove": "unsub"},
+                  {"notify": None, "remove": "unsub"}, {"notify": 0, "remove": "dereg"},
+                  {"notify": 0, "remove": "unsub", "order": True}]
 
 
 def race_explore(ctx, cap1, cap2, n_pct):
     """per scenario: ALL schedules with at most one pre-emption (one pre-emption suffices to put a whole removal between any
-    two steps of the attendance), then a sample of the two-pre-emption schedules and some PCT runs"""
+    two steps of the attendance - in particular at every lock acquisition INSIDE the database search of A's attendance),
+    then a sample of the two-pre-emption schedules and some PCT runs"""
     import dsched
     for sc in RACE_SCENARIOS:
-        def handle(run, sc=sc):
+        tag = f"race_{sc['remove']}_{sc['notify']}" + ("_ordered" if sc.get("order") else "")
+
+        def handle(run, sc=sc, tag=tag):
             ctx.evals()
-            ctx.cover(f"race_{sc['remove']}_{sc['notify']}")
+            ctx.cover(tag)
             ctx.cover("race_preemptions_%d" % min(dsched.preemptions(run.steps), 3))
-            ctx.nontrivial(("race", sc["remove"], sc["notify"], tuple(run.events)))
+            ctx.nontrivial(("race", tag, tuple(run.events)))
+            ev = run.events
+            gone = next((i for i, e in enumerate(ev) if e[0] == "gone" and e[1]), None)
+            if gone is not None:
+                srch = next((i for i, e in enumerate(ev) if e == ("srch", "A")), None)
+                ready = max((i for i, e in enumerate(ev) if e[0] in ("found", "ord") and e[1] == "A"), default=None)
+                if srch is not None and ready is not None:
+                    ctx.cover("race_removal_" + ("before_search" if gone < srch else "inside_search_phase" if gone < ready
+                                                 else "after_search_phase"))
             for what, fid in run.judge():
                 ctx.violation(f"race {sc['remove']}/notify={sc['notify']}: {what}",
                               {"kind": "race", "scenario": sc, "schedule": run.choices}, fid)
@@ -688,7 +807,7 @@ def race_explore(ctx, cap1, cap2, n_pct):
 
         def once(prefix, sc=sc):
             return handle(RaceRun(sc, dsched.Replay(prefix))).steps
-        runs, exhausted = dsched.enumerate_schedules(once, 1, cap1 if sc["notify"] else cap1 // 4, None)
+        runs, exhausted = dsched.enumerate_schedules(once, 1, cap1, None)
         ctx.cover("race_runs", runs)
         if exhausted:
             ctx.cover("race_exhausted_bound_1")
@@ -739,7 +858,9 @@ def run(ctx):
             ctx.evals()
             for what, fid in r.judge():
                 ctx.violation(f"corpus:{n}: {what}", c, fid)
-    race_explore(ctx, ctx.scale(400, 3000), ctx.scale(40, 1500), ctx.scale(10, 300))
+    ctx.extra["variant"]["C14-KF3"] = ("membership test only before process_notifications (code as is)" if gap_variant()
+                                       else "membership test inside the decision section (repaired)")
+    race_explore(ctx, ctx.scale(420, 3000), ctx.scale(25, 1500), ctx.scale(6, 300))
     if hists:
         h = hists[-1][1]
         ctx.sample("history", {"ops": [op if op[0] != "add" else op[:3] + ["..."] for op in h["ops"][:14]]})
